@@ -19,10 +19,14 @@ type zzReader struct {
 	pos     int
 	failure error
 	done    bool
+	timed   bool
 }
 
 func (r *zzReader) Read(p []byte) (int, error) {
 	zz.Assert(!r.done, "reader called again after it returned an error")
+	if r.timed {
+		zz.ClockAdvance() // time passes between reads (natively: the replay really waits past the flush timeout)
+	}
 	remaining := len(r.data) - r.pos
 	n := 1 + zz.Choice(remaining+1)
 	if n > remaining {
@@ -72,6 +76,7 @@ func H01Batch() {
 	}
 	batchSize := 1 + zz.Choice(zzBatch)
 	timed := zz.Bool()
+	rd.timed = timed
 	b := newBatcher(100)
 	if timed {
 		b.syncReaderToBatcherWithTimeFlush("src", rd, batchSize, AutoFlushTimeout)
